@@ -25,6 +25,7 @@ def check(run):
     try:
         storecheck.history_family(run, drv, n=(300 if quick else 6000))
         storecheck.stale_client_family(run, n=(6 if quick else 40))
+        storecheck.large_value_family(run, quick)
         if drv is not None and run.corr_disagreements == 0:
             run.obligation('correspondence: %d histories on the real stores answered exactly like the model' % run.corr_programs, True)
     finally:
